@@ -24,6 +24,10 @@ pub enum TrOp {
     Expand,
     Header,
     Const,
+    /// `fcv-tr needkey`: copies its input like `cat` when the file `../key` (relative to the working
+    /// directory of fclones, i.e. outside the scanned roots) exists; otherwise writes only the first
+    /// 16 bytes and exits with status 3 (a decoder without its key file)
+    NeedKey,
 }
 
 #[derive(Clone, Debug, Serialize, Deserialize, PartialEq, Eq)]
@@ -58,6 +62,7 @@ impl Tr {
                 v
             }
             TrOp::Const => b"constant output\n".to_vec(),
+            TrOp::NeedKey => input.to_vec(),
         }
     }
 
@@ -90,6 +95,7 @@ impl Tr {
             (TrOp::Expand, _) => helper("expand"),
             (TrOp::Header, _) => helper("header"),
             (TrOp::Const, _) => helper("const"),
+            (TrOp::NeedKey, _) => helper("needkey"),
         }
     }
 }
@@ -138,6 +144,7 @@ pub fn helper_main(args: &[OsString]) -> i32 {
         "fail" => return 3,
         "failafterread" => TrOp::Cat,
         "noout" => TrOp::Cat,
+        "needkey" => TrOp::Cat,
         s if s.starts_with("head:") => TrOp::Head(s[5..].parse().unwrap_or(0)),
         _ => return 2,
     };
@@ -152,6 +159,12 @@ pub fn helper_main(args: &[OsString]) -> i32 {
     }
     if opname == "failafterread" {
         return 5;
+    }
+    if opname == "needkey" && !std::path::Path::new("../key").exists() {
+        let so = std::io::stdout();
+        let mut l = so.lock();
+        let _ = l.write_all(&data[..data.len().min(16)]).and_then(|_| l.flush());
+        return 3;
     }
     if opname == "noout" {
         // never opens $OUT, writes nothing
